@@ -68,4 +68,70 @@ Proof.
       rewrite proj_app, Hp, P. reflexivity.
 Qed.
 
+Notation sstep := (sstep decode method_kind req_ok service).
+Notation srun := (srun decode method_kind req_ok service).
+
+(* a deleted channel is never stepped again and nothing is attributed to it *)
+Lemma srun_gone ops : forall s s' tr i,
+  srun s ops = (s', tr) -> nth_error s i = Some None ->
+  nth_error s' i = Some None /\ proj i tr = [].
+Proof.
+  induction ops as [|x ops IH]; intros s s' tr i H Hi; cbn [Model.srun] in H.
+  - inversion H; subst. auto.
+  - destruct (sstep s x) as [s1 evs] eqn:Es. destruct (srun s1 ops) as [s2 evs2] eqn:Er.
+    inversion H; subst s' tr; clear H.
+    assert (Hlen : (i < length s)%nat) by (apply nth_error_Some; congruence).
+    assert (H1 : nth_error s1 i = Some None /\ proj i evs = []).
+    { destruct x as [j o|j]; cbn [Model.sstep] in Es.
+      - destruct (Nat.eq_dec j i) as [->|Hne].
+        + rewrite Hi in Es. inversion Es; subst. auto.
+        + destruct (nth_error s j) as [[[fj rj]|]|]; try (inversion Es; subst; auto; fail).
+          destruct (step fj rj o) as [[f1 r1] e1]. inversion Es; subst.
+          split; [rewrite nth_upd_other by exact Hne; exact Hi|apply proj_tag_other; exact Hne].
+      - inversion Es; subst. split; [|reflexivity].
+        destruct (Nat.eq_dec j i) as [->|Hne]; [apply nth_upd_same; exact Hlen|].
+        rewrite nth_upd_other by exact Hne. exact Hi. }
+    destruct H1 as [Hn Hp]. destruct (IH _ _ _ i Er Hn) as [A B].
+    split; [exact A|]. rewrite proj_app, Hp, B. reflexivity.
+Qed.
+
+Lemma srun_proj ops : forall s s' tr i f r,
+  srun s ops = (s', tr) -> nth_error s i = Some (Some (f, r)) ->
+  exists f' r' tri,
+    run f r (own_ops i ops) = (f', r', tri) /\ proj i tr = tri /\
+    nth_error s' i = Some (if hangs_up i ops then None else Some (f', r')).
+Proof.
+  induction ops as [|x ops IH]; intros s s' tr i f r H Hi; cbn [Model.srun] in H.
+  - inversion H; subst. exists f, r, []. cbn. auto.
+  - destruct (sstep s x) as [s1 evs] eqn:Es. destruct (srun s1 ops) as [s2 evs2] eqn:Er.
+    inversion H; subst s' tr; clear H.
+    assert (Hlen : (i < length s)%nat) by (apply nth_error_Some; congruence).
+    destruct x as [j o|j]; cbn [Model.sstep] in Es; cbn [own_ops hangs_up].
+    + destruct (Nat.eqb j i) eqn:Eji.
+      * apply Nat.eqb_eq in Eji. subst j. rewrite Hi in Es.
+        destruct (step f r o) as [[f1 r1] e1] eqn:Est. inversion Es; subst s1 evs; clear Es.
+        pose proof (nth_upd_same i (Some (f1, r1)) s Hlen) as Hn.
+        destruct (IH _ _ _ i f1 r1 Er Hn) as (f' & r' & tri & R & P & Nn).
+        cbn [Model.run]. rewrite Est, R. exists f', r', (e1 ++ tri). split; [reflexivity|].
+        split; [rewrite proj_app, proj_tag_same, P; reflexivity|exact Nn].
+      * apply Nat.eqb_neq in Eji.
+        assert (Hs1 : nth_error s1 i = Some (Some (f, r)) /\ proj i evs = []).
+        { destruct (nth_error s j) as [[[fj rj]|]|]; try (inversion Es; subst; auto; fail).
+          destruct (step fj rj o) as [[f1 r1] e1]. inversion Es; subst.
+          split; [rewrite nth_upd_other by exact Eji; exact Hi|apply proj_tag_other; exact Eji]. }
+        destruct Hs1 as [Hn Hp].
+        destruct (IH _ _ _ i f r Er Hn) as (f' & r' & tri & R & P & Nn).
+        exists f', r', tri. split; [exact R|]. split; [rewrite proj_app, Hp, P; reflexivity|exact Nn].
+    + inversion Es; subst s1 evs; clear Es. cbn [app].
+      destruct (Nat.eqb j i) eqn:Eji.
+      * apply Nat.eqb_eq in Eji. subst j. cbn [orb].
+        pose proof (nth_upd_same i (@None (frame * rpc)) s Hlen) as Hn.
+        destruct (srun_gone _ _ _ _ i Er Hn) as [A B].
+        exists f, r, []. cbn. auto.
+      * apply Nat.eqb_neq in Eji. cbn [orb].
+        assert (Hn : nth_error (upd j None s) i = Some (Some (f, r)))
+          by (rewrite nth_upd_other by exact Eji; exact Hi).
+        exact (IH _ _ _ i f r Er Hn).
+Qed.
+
 End Multi.
